@@ -118,6 +118,10 @@ def parse_generic(parser, bname, elts, P):
     if bname == 'KeySeq' and len(elts) == 1 and isinstance(elts[0], ast.Name):
         return ('kseq', elts[0].id)
     if bname in ('dict', 'Dict', 'Mapping') and len(elts) == 2:
+        from . import ufmaps   # ufmaps: key-valued maps, dict[K, set[K]]
+        r = ufmaps.parse_generic(bname, elts, P)
+        if r is not None:
+            return r
         kn = key_name_of(P(elts[0]))
         vt = P(elts[1])
         if kn is not None and vt[0] in ('bool', 'int', 'key', 'set'):   # absnodes: key / set values
@@ -136,6 +140,8 @@ def _vsort(vtyp):
         return z3.BoolSort()
     if vtyp[0] == 'int':
         return z3.IntSort()
+    if vtyp[0] == 'key':   # ufmaps
+        return key_sort(vtyp[1])
     raise Unsupported(f'symbolic map with values of type {vtyp}')
 
 
@@ -161,6 +167,9 @@ def fresh(P, typ, name):
         n = z3.Int(name + '#len')
         P.assume(n >= 0, fact=True)
         return SymKeySeq(lambda i: af(i), n, typ[1], name)
+    if k == 'relmap':   # ufmaps
+        from . import ufmaps
+        return ufmaps.fresh(P, typ, name)
     raise InterpError(f'containers.fresh: {typ}')
 
 
@@ -172,6 +181,8 @@ def type_of_value(P, v):
         return ('map', v.kname, v.vtyp)
     if isinstance(v, SymSet):
         return ('set', v.kname)
+    if type(v).__name__ == 'SymRelMap':   # ufmaps
+        return ('relmap', v.kname)
     if isinstance(v, bool) or is_sym_bool(v):
         return ('bool',)
     if is_intlike(v):
@@ -286,7 +297,7 @@ def map_setitem(P, m: SymMap, k, v):
 
 
 def empty_map(kname, vtyp):
-    dv = z3.BoolVal(False) if vtyp[0] == 'bool' else z3.IntVal(0)
+    dv = z3.BoolVal(False) if vtyp[0] == 'bool' else (z3.Const('k!none', key_sort(vtyp[1])) if vtyp[0] == 'key' else z3.IntVal(0))
     return SymMap(lambda x: z3.BoolVal(False), lambda x: dv, kname, vtyp)
 
 
@@ -311,12 +322,17 @@ def bound_name(v, attr):
         return f'symmap.{attr}'
     if isinstance(v, SymSet):
         return f'symset.{attr}'
+    if type(v).__name__ == 'SymRow':   # ufmaps
+        return f'symrow.{attr}'
     return f'symseq.{attr}'
 
 
 def call_bound(P, name, recv, args, kwargs):
     if kwargs:
         raise Unsupported(f'{name} with keyword arguments')
+    if name.startswith('symrow.'):   # ufmaps
+        from . import ufmaps
+        return ufmaps.call_bound(P, name, recv, args, kwargs)
     if name == 'symmap.copy' and not args:
         c = recv.clone()
         c.name = None
@@ -407,6 +423,9 @@ def fresh_quiet(typ, name):
 def equal_content(a, b):
     if type(a) is not type(b) or a.kname != b.kname:
         return False
+    if type(a).__name__ == 'SymRelMap':   # ufmaps
+        from . import ufmaps
+        return ufmaps.equal_content(a, b)
     x = z3.Const('k!frame', key_sort(a.kname))
     if isinstance(a, SymMap):
         body = z3.And(_b(a.present(x)) == _b(b.present(x)),
@@ -789,13 +808,16 @@ def concretize_entry(cz, typ, name):
         for u in universe(m, typ[1]):
             if z3.is_true(m.eval(pf(u), model_completion=True)):
                 val = m.eval(vf(u), model_completion=True)
-                items.append([str(u), z3.is_true(val) if typ[2][0] == 'bool' else val.as_long()])
+                items.append([str(u), z3.is_true(val) if typ[2][0] == 'bool' else (str(val) if typ[2][0] == 'key' else val.as_long())])
         return {'$map': typ[1], 'items': items, 'universe': [str(u) for u in universe(m, typ[1])]}
     if k == 'set':
         s = key_sort(typ[1])
         pf = z3.Function(name + '#in', s, z3.BoolSort())
         items = [str(u) for u in universe(m, typ[1]) if z3.is_true(m.eval(pf(u), model_completion=True))]
         return {'$set': typ[1], 'items': items, 'universe': [str(u) for u in universe(m, typ[1])]}
+    if k == 'relmap':   # ufmaps
+        from . import ufmaps
+        return ufmaps.concretize(cz, None, name, typ)
     if k == 'kseq':
         s = key_sort(typ[1])
         af = z3.Function(name + '#at', z3.IntSort(), s)
@@ -825,4 +847,7 @@ def concretize_value(cz, v):
     if isinstance(v, SymSet):
         items = [str(u) for u in universe(m, v.kname) if z3.is_true(m.eval(_b(v.member(u)), model_completion=True))]
         return {'$set': v.kname, 'items': items, 'universe': [str(u) for u in universe(m, v.kname)]}
+    if type(v).__name__ == 'SymRelMap':   # ufmaps
+        from . import ufmaps
+        return ufmaps.concretize(cz, v)
     return {'$opaque': repr(v)}
